@@ -11,7 +11,7 @@ T = {
          "contracts + loop invariants on rle.go discharged by SMT; bounded content identity"),
  'C02': ("JPEG Lossless: a pair lemma over ONE iteration of the real encodeScan loop body and ONE iteration of the real decodeScan loop body proves, for every precision 2..16, every predictor (symbolic), every position and every neighbourhood, that the decoder stores exactly the encoder's source sample given the same difference; the difference category coder is proved against T.81 F.1.2.1/F.2.2.1 and its encoder/decoder pair is proved inverse for all 65536 differences; the same per-sample pair lemma is proved for the first-order-prediction (SV1) codec, including that the encoder's left-neighbour cache equals the sample just coded; Huffman table construction, bit I/O and whole-image composition are bounded stand-ins.",
          "relational (pair) lemmas over real loop bodies + function contracts, SMT; bounded Huffman/bit layer"),
- 'C03': ("JPEG-LS lossless: pair lemma encodeRegularSample ~ decodeRegularSample for every bit depth 2..16 (decoded sample = source, contexts evolve in lockstep), every scalar helper proved against its T.87 spec function (MED predictor, error mapping, modulo reduction, context update A.12/A.13, Golomb parameter, reconstruction); the Golomb bit layer is an assumed channel contract backed by an exhaustive bounded test; run mode and whole images are bounded stand-ins.",
+ 'C03': ("JPEG-LS lossless: pair lemma encodeRegularSample ~ decodeRegularSample for every bit depth 2..16 (decoded sample = source, contexts evolve in lockstep), every scalar helper proved against its T.87 spec function (MED predictor, error mapping, modulo reduction, context update A.12/A.13, Golomb parameter, reconstruction); the Golomb bit layer is an assumed channel contract backed by an exhaustive bounded test; the run-interruption sample (A.7.2) is proved the same way: EncodeRunInterruption is proved to hand the limited-length Golomb coder only representable tokens (k <= 16, escape tokens of at most qbpp bits) and to maintain the run-context invariant A <= N*2^(P-1), the encoder's interruption pixel function is proved to reconstruct its source sample, and two pair lemmas (error value / whole interruption pixel, every bit depth) prove that the decoder recovers it with both run contexts in lockstep; run-length coding and whole images are bounded stand-ins.",
          "pair lemma + function contracts against T.87 spec functions, SMT; bounded Golomb/run mode"),
  'C04': ("JPEG 2000 reversible path: the reversible colour transform pair is proved inverse (scalar and array forms); the 5/3 lifting is proved, for every signal length and both parities, to compute exactly the T.800 Annex F predict/update formulas in the code's own 32-bit arithmetic (forward and inverse, quantified loop invariants), and a composition lemma over the two proved contracts shows inverse(forward(x)) = x for all samples within +-2^28; the tile-grid functions and the layer/pass bookkeeping are proved; T1/MQ/T2, the 2-D/multi-level drivers and the 3700-line encoder are outside the SMT subset and are covered by bounded round trips over the configuration lattice.",
          "contracts + quantified loop invariants on RCT and 5/3 lifting, sequential pair (composition) lemma, SMT with generator-side quantifier instantiation; bounded codec round trips"),
@@ -19,8 +19,8 @@ T = {
          "contracts with quantified pre-conditions on the real layer-finalisation functions, SMT; bounded parameter lattice"),
  'C06': ("HTJ2K lossless: the Scup locator (last 12 bits of the cleanup segment) writer and parser are proved inverse for every legal suffix length and the parser is proved panic-free for every byte string; the HT cleanup block coder, MEL/VLC tables and the codec round trip (sizes, block sizes, levels, the 14 third-party fixtures) are bounded stand-ins.",
          "pair lemma + contracts on the Scup locator, SMT; bounded HT block coder and fixtures"),
- 'C11': ("JPEG DCT codecs: ScaleQuantTable is proved equal to the IJG quality-scaling rule with entries in 1..255 for every quality and base table (quantified loop invariant); the per-sample error bound against the stream's own DQT tables, accepted-by-decoder and geometry are bounded stand-ins (every quality, every partial block shape).",
-         "contract on the quality->table function, SMT; bounded error-bound sweep"),
+ 'C11': ("JPEG DCT codecs: ScaleQuantTable is proved equal to the IJG quality-scaling rule with entries in 1..255 for every quality and base table (quantified loop invariant); the zig-zag order is proved (by constant evaluation of a structural characterisation: each position is the zig-zag successor of the previous one, Unzig is its inverse) and the built-in Huffman tables are proved to describe prefix codes; the per-sample error bound against the stream's own DQT tables, accepted-by-decoder and geometry are bounded stand-ins (every quality, every partial block shape).",
+         "contract on the quality->table function, SMT; table invariants by constant evaluation; bounded error-bound sweep"),
  'C07': ("JPEG-LS near-lossless: the property statement itself is the post-condition of the real encoder kernel encodeRegularSample, proved for ALL NEAR (symbolic, no case split), all precisions, contexts and neighbourhoods: |reconstruction - source| <= NEAR and 0 <= reconstruction <= MAXVAL; a pair lemma over the real encoder and decoder kernels proves the decoder reconstructs exactly the value the encoder wrote back (so the bound transfers to the decoded image for regular-mode samples); the scan header is proved to declare the NEAR the samples were coded with, and Encode to reject NEAR outside 0..min(255, MAXVAL/2); quantize / ModuloRange / ComputeReconstructedSample are proved against T.87 A.4.4-A.4.5; the Golomb layer is an assumed channel (bounded-backed); run-mode samples and whole images are bounded stand-ins.",
          "post-condition of the real kernel under symbolic NEAR + encoder/decoder pair lemma + header contracts, SMT; bounded Golomb/run mode"),
  'C08': ("No decoder panics: a zero-annotation safety sweep generates every index/slice/nil/division/shift/make/panic obligation of every decoder-side function under an empty pre-condition (all parameters and the heap symbolic); the obligations discharged on the pinned tree are the committed baseline and must stay discharged; functions under contract are fully proved, among them RLE, the Huffman category coder, the JPEG-LS helpers and run-length scanner, the JPEG 2000 codestream parser primitives (cursor stays inside the input), SIZ/COD validation (what a parsed header guarantees downstream) and the decoder's stream-state reset (no stale state can index the next image's components); bounded truncation/corruption sweeps of every decoder stand in for the rest.",
@@ -31,11 +31,11 @@ T = {
          "whole-module footprint (frame) analysis over SSA + contracts; bounded histories"),
  'C13': ("T.81 conformance: Predictor is proved equal to Table H.1, predictSample to the H.1.2.1 edge rules, the category/EXTEND coder to F.1.2.1/F.2.2.1, modulo-2^16 reconstruction by the pair lemma; spec functions are transcribed from the standard; an independent reference codec runs in the bounded stand-in.",
          "function contracts against spec functions transcribed from T.81, SMT; bounded reference codec"),
- 'C14': ("T.87 conformance: every scalar helper (MED, error mapping, modulo reduction, quantisation, reconstruction, A.12/A.13 update, Golomb parameter, bias correction) is proved equal to its spec function transcribed from T.87; an independent T.87 decoder and lossless==near(0) byte identity run as bounded stand-ins.",
+ 'C14': ("T.87 conformance: every scalar helper (MED, error mapping, modulo reduction, quantisation, reconstruction, A.12/A.13 update, Golomb parameter, bias correction) is proved equal to its spec function transcribed from T.87; the run-interruption mapping (A.21-A.23: map bit, EMErrval, context update, Golomb parameter of the run contexts) is proved against its spec functions; an independent T.87 decoder and lossless==near(0) byte identity run as bounded stand-ins.",
          "function contracts against spec functions transcribed from T.87, SMT; bounded independent decoder"),
  'C16': ("Well-formed streams: WriteSegment's length field is proved to equal payload+2 (pre-condition payload <= 65533); the frame headers of every JPEG-family encoder (SOF0, SOF1, SOF3 x2, SOF55 x2) are proved to carry exactly the encoder's precision/height/width/components, the JPEG-LS scan headers to carry NEAR/ILV; the JPEG 2000 SIZ segment is proved byte-exact for all parameters (marker, Lsiz, Rsiz, Xsiz..YTOsiz, Csiz and every Ssiz/XRsiz/YRsiz), the COD segment's length, layers, levels, HT bit and wavelet are proved; the Huffman bit writer is proved never to leave an unescaped 0xFF as the last byte handed to the sink (writeByte, WriteBits, Flush: the 1-padded final byte is stuffed like any other); RLE length/header facts are proved; the whole-stream structure is checked by independent strict marker walkers in the bounded stand-in.",
          "contracts with ghost output bytes / exact buffer contents, SMT; bounded strict marker walkers"),
- 'C17': ("Encoders reject unrepresentable input: every JPEG-family entry point (baseline, extended incl. the 12-bit path, lossless, SV1, JPEG-LS lossless and near-lossless) is proved to return an error for dimensions outside 1..65535, unsupported component counts, precision or quality out of range, NEAR outside 0..min(255, MAXVAL/2) and pixel buffers shorter than the frame, and what reaches the header writers is proved to fit their fields (call-site pre-conditions); zero-annotation safety sweep over every encoder-side function (empty pre-conditions); RLE encoder fully proved incl. the 15-segment limit; the argument lattice at API level is a bounded stand-in.",
+ 'C17': ("Encoders reject unrepresentable input: every JPEG-family entry point (baseline, extended incl. the 12-bit path, lossless, SV1, JPEG-LS lossless and near-lossless) is proved to return an error for dimensions outside 1..65535, unsupported component counts, precision or quality out of range, NEAR outside 0..min(255, MAXVAL/2) and pixel buffers shorter than the frame, and what reaches the header writers is proved to fit their fields (call-site pre-conditions); jpeg2000.Encoder.validateParams is proved to accept only what SIZ/COD can carry (components 1..4, depth 1..16, levels 0..6, layers 1..65535, code-block 4..1024 with area <= 4096, precincts <= 32768); zero-annotation safety sweep over every encoder-side function (empty pre-conditions); RLE encoder fully proved incl. the 15-segment limit; the argument lattice at API level is a bounded stand-in.",
          "rejection post-conditions on the real entry points + call-site pre-conditions of header writers, SMT; safety sweep; bounded argument lattice"),
  'C18': ("Concurrency as non-interference: over ALL library functions, (1) no function callable after init writes memory reachable from a package-level variable, (2) no codec method (nor any callee it hands itself to) writes the codec object, (3) no goroutines/channels exist in library code; with private pixel data this leaves no shared mutable location. Schedules are not explored and the race detector is not run (different technique).",
          "whole-module footprint (frame) analysis over SSA"),
